@@ -392,6 +392,25 @@ func (e *Engine) VerifyFunc(pkgPath, key string, modular bool) (rep *FuncReport,
 		for _, inv := range sp.Invs {
 			v.reqs = append(v.reqs, v.pre.Tr(inv.Body).T)
 		}
+		// ... also those another module of the package proves for every exported method (`relies`): read with that
+		// module's definitions, in this entry state
+		for _, r := range e.Relied[fn.Pkg().Path()] {
+			env := *v.pre
+			env.File = r.File
+			v.reqs = append(v.reqs, env.Tr(r.Inv.Body).T)
+		}
+	}
+	if fn.Name() == "_deploy" && decl.Recv == nil {
+		// an update runs on a state the contract's history produced: relied package invariants hold when isUpdate
+		for i, n := range names {
+			if n == "isUpdate" && i < len(args) && args[i].Ty.K == spec.KBool {
+				for _, r := range e.Relied[fn.Pkg().Path()] {
+					env := *v.pre
+					env.File = r.File
+					v.reqs = append(v.reqs, sx.Implies(args[i].T, env.Tr(r.Inv.Body).T))
+				}
+			}
+		}
 	}
 	if fs.Nofault && fs.Given != nil {
 		v.given = []*sx.T{v.pre.Tr(fs.Given).T}
